@@ -4,7 +4,8 @@ with 2^64-1 / 2^63, number of significant digits, fraction / exponent, decimal m
 happen: an integer literal in [-2^63, 2^64) parses to exactly that integer whatever its leading zeros (in a
 document, and through as<T>() on a string); a literal of magnitude 1e-300..1e300 parses to a finite value
 within 1e-6, within 1e-13 with more than seven significant digits; larger / smaller magnitudes give infinity
-/ zero or a finite value of the right decimal exponent.  The error is measured by the harness in quad
+/ zero or a finite value of the right decimal exponent (on a build with ARDUINOJSON_USE_DOUBLE=0 the range is the
+float's, 1e-37..1e38, and the bound is 1e-5: the property states none for that build).  The error is measured by the harness in quad
 precision and arrives as a scaled integer.  Printing: every float bit pattern (quick: strided; thorough: all
 2^32) must be printed within 1e-6*max(1,|x|) (logged as maximal runs); sampled doubles (powers of two and
 ten, integer boundaries and neighbours, 20000 seeded values over all exponents) within 1e-9*max(1,|x|)."""
@@ -21,6 +22,7 @@ def run(tier):
     wd = vlib.workdir("C12")
     quick = tier == "quick"
     b = numcommon.build()
+    bf = numcommon.build(["ARDUINOJSON_USE_DOUBLE=0"], "numbers_record-float")   # single-precision storage
     rng = random.Random(vlib.seed())
     shapes = numbersgen.shapes(rng, 6000 if quick else 120000)
     jobs = []
@@ -32,6 +34,9 @@ def run(tier):
                 f.write(json.dumps(s) + "\n")
         out = os.path.join(wd, f"parse{p}.ndjson")
         jobs.append((f"parse{p}", [b, "parse", sp, out], out))
+        if p % 2 == 0:
+            outf = os.path.join(wd, f"parsef{p}.ndjson")
+            jobs.append((f"parsef{p}", [bf, "parse", sp, outf], outf))
     stride = 4099 if quick else 1
     fparts = 4 if quick else 16
     span = 2**32 // fparts
